@@ -504,3 +504,101 @@ func I7(rc *RC) {
 		rc.S.Ok("I7", "tensor.MultIteratorFromDense#mask", pos, fmt.Sprintf("%d mask read(s) paired with the operand's own index", len(locs)))
 	}
 }
+
+// I8: FlatIterator.NextValid steps exactly like Next. For an unmasked tensor NextValid is Next
+// plus a step count: under every combination of the iterator's mode flags (isScalar, isVector,
+// reverse, outerFirst) both must delegate to the same stepping function, and NextValid reports
+// -1 as the step when and only when it steps backwards.
+func I8(rc *RC) {
+	rc.S.Declare("I8", "dispatch agreement: under every combination of the mode flags FlatIterator.NextValid delegates to the same stepping function as FlatIterator.Next, with step -1 exactly on the reverse arms", 1)
+	stepRe := regexp.MustCompile(`\$r\.(singleNext|singlePrevious|ndNext|ndPrevious|colMajorNDNext)\(\)`)
+	dispatch := func(key string) (map[string]string, string, bool) {
+		fi := anchor(rc, "I8", key)
+		if fi == nil {
+			return nil, "-", false
+		}
+		_, tree := sCanon(rc, fi)
+		paths, ok := ir.EnumPaths(tree, 2000)
+		if !ok {
+			return nil, rc.P.Pos(fi.Decl.Pos()), false
+		}
+		out := map[string]string{}
+		flags := []string{"$r.done", "$r.isScalar", "$r.isVector", "$r.reverse", "$r.outerFirst"}
+		for m := 0; m < 1<<len(flags); m++ {
+			env := map[string]bool{}
+			var name []string
+			for i, f := range flags {
+				env[f] = m&(1<<i) != 0
+				if env[f] {
+					name = append(name, strings.TrimPrefix(f, "$r."))
+				}
+			}
+			for _, p := range paths {
+				sat := true
+				for _, f := range ir.PathFormulas(p) {
+					unknown := false
+					for _, a := range f.Atoms() {
+						if _, ok := env[a]; !ok {
+							unknown = true
+						}
+					}
+					if unknown || !f.Eval(env) {
+						sat = false
+						break
+					}
+				}
+				if !sat {
+					continue
+				}
+				callee := "-"
+				for _, st := range p.Steps {
+					if mm := stepRe.FindStringSubmatch(st.Head); mm != nil {
+						callee = mm[1]
+					}
+				}
+				step := ""
+				if parts := splitArgs(p.Ret); len(parts) == 3 {
+					step = parts[1]
+				}
+				out[strings.Join(name, "+")] = callee + "|" + step
+			}
+		}
+		return out, rc.P.Pos(fi.Decl.Pos()), true
+	}
+	next, pos, ok1 := dispatch("tensor.(*FlatIterator).Next")
+	valid, _, ok2 := dispatch("tensor.(*FlatIterator).NextValid")
+	key := "tensor.(*FlatIterator).Next~NextValid"
+	if !ok1 || !ok2 {
+		rc.S.Undec("I8", key, pos, "dispatch not extractable")
+		return
+	}
+	var bad []string
+	var ks []string
+	for k := range next {
+		ks = append(ks, k)
+	}
+	sort.Strings(ks)
+	for _, k := range ks {
+		n := strings.SplitN(next[k], "|", 2)[0]
+		v, ok := valid[k]
+		if !ok {
+			bad = append(bad, fmt.Sprintf("flags [%s]: Next steps with %s, NextValid has no path", k, n))
+			continue
+		}
+		vp := strings.SplitN(v, "|", 2)
+		if vp[0] != n {
+			bad = append(bad, fmt.Sprintf("flags [%s]: Next steps with %s, NextValid with %s", k, n, vp[0]))
+		}
+		if n != "-" {
+			back := strings.Contains(n, "Previous")
+			if back != (vp[1] == "-1") {
+				bad = append(bad, fmt.Sprintf("flags [%s]: NextValid steps with %s but reports step %s", k, vp[0], vp[1]))
+			}
+		}
+	}
+	if len(bad) > 0 {
+		rc.S.Viol("I8", key, pos, strings.Join(bad, "; ")).Sig = firstWords(bad)
+	} else {
+		rc.S.Ok("I8", key, pos, fmt.Sprintf("%d flag combinations agree", len(ks)))
+	}
+}
